@@ -341,7 +341,8 @@ pub fn draw_target_len(t: &mut Tape, dict: u64) -> u64 {
         7 => t.range(300, 3000),
         8 => {
             if dict <= 8192 {
-                dict * t.range(1, 4) + t.below(600)
+                // a third: exactly a whole number of windows (the last symbol fills the window)
+                dict * t.range(1, 4) + if t.below(3) == 0 { 0 } else { t.below(600) }
             } else {
                 t.range(300, 6000)
             }
